@@ -100,6 +100,23 @@ def run_schedule(f, data, gz, lazy, sched, fields):
     return ('ok', extra_rows), chunks
 
 
+def run_joined(f, data, gz, lazy, k, fields):
+    """The statement's "when the chunks are concatenated in order", taken literally: the chunk objects of read_chunks(k),
+    not looked at, joined with np.concatenate, then read.  -> ('ok', rows, n_chunks) | ('raises', exc) | None (< 3 chunks)"""
+    import numpy as np
+    try:
+        reader = make_reader(data, f.buffer_type(), lazy, gz)
+        cs = list(reader.read_chunks(k))
+        if len(cs) < 3:
+            return None
+        joined = np.concatenate(cs)
+        return ('ok', observe.table_rows(joined, fields), len(cs))
+    except observe.ObserverError:
+        raise
+    except Exception as e:
+        return ('raises', e)
+
+
 def judge(whole, status, chunks):
     """-> None or (kind, expected, observed)"""
     flat = [r for c in chunks for r in c]
@@ -161,12 +178,37 @@ def check_case(res, fmt, variants, eol, final_newline, gz, lazy, scheds, whole_c
             feats = {'format': fmt, 'final_newline': final_newline, 'gz': gz}
             res.fail(kind, case, feats, expected=exp, observed=obs,
                      tb=tb_string(status[2]) if status[0] == 'raises' else None)
-    if completed == 0:
+    # the chunk OBJECTS joined with np.concatenate (>= 3 chunks), a few chunk sizes
+    if len(whole) >= 3:
+        for k in sorted({1, max(1, len(data) // 4), max(1, len(data) // 3)}):
+            r = run_joined(f, data, gz, lazy, k, fields)
+            if r is None:
+                continue
+            res.transitions += 1
+            jcase = {'fmt': fmt, 'variants': list(variants), 'eol': eol, 'final_newline': final_newline, 'gz': gz, 'lazy': lazy,
+                     'sched': ['joined', k]}
+            if r[0] == 'raises':
+                # every chunk alone and the whole file read fine; np.concatenate is how the repository's own tests and examples
+                # join chunks: a well-formed file must not become unreadable by being read in three or more chunks
+                res.fail('joined-chunks-unreadable', jcase,
+                         {'format': fmt, 'final_newline': final_newline, 'gz': gz, 'lazy': lazy, 'schedule': 'np.concatenate(chunks)',
+                          'exc': exc_name(r[1])}, expected={'n': len(whole), 'rows': whole[:6]},
+                         observed='%s: %s' % (exc_name(r[1]), str(r[1])[:200]), tb=tb_string(r[1]))
+                res.outcome('JOINED-RAISES')
+                continue
+            if r[1] != whole:
+                res.fail('joined-chunks-differ-from-whole-read', jcase,
+                         {'format': fmt, 'final_newline': final_newline, 'gz': gz, 'lazy': lazy, 'schedule': 'np.concatenate(chunks)'},
+                         expected={'n': len(whole), 'rows': whole[:6]}, observed={'n': len(r[1]), 'rows': r[1][:6], 'chunks': r[2]})
+                res.outcome('JOINED-DIFFERS')
+            else:
+                res.outcome('joined:ok')
+    if completed == 0 and scheds:
         case = {'fmt': fmt, 'variants': list(variants), 'eol': eol, 'final_newline': final_newline, 'gz': gz,
                 'lazy': lazy, 'sched': ['all'], 'data_b64': base64.b64encode(data).decode()}
         res.fail('no-chunk-size-completes', case, {'format': fmt, 'final_newline': final_newline, 'gz': gz},
                  expected='some k completes', observed='every k raised')
-    if len(res.samples) < 2:
+    if len(res.samples) < 2 and scheds:
         res.sample({'format': fmt, 'file': data.decode('latin1'), 'config': [eol, final_newline, gz, lazy],
                     'schedules': len(scheds), 'whole_entries': len(whole)})
 
@@ -274,7 +316,11 @@ def run_shard(desc, deadline):
     b = bounds(desc['tier'], desc.get('seed', 0))
     for ci, (eol, fn, gz, lazy) in enumerate(CONFIGS):
         if desc['tier'] == 'quick' and len(desc['variants']) >= 3 and (ci + desc.get('seed', 0)) % 4 != 0:
-            continue      # extension slice (DESIGN 10): rotated by VERIF_SEED; thorough runs all of it for <= 3 records
+            # extension slice (DESIGN 10): rotated by VERIF_SEED; thorough runs all of it for <= 3 records.  The
+            # np.concatenate(chunks) clause needs >= 3 chunks and costs three reads: it runs on every configuration
+            f, recs, data = build(desc['fmt'], desc['variants'], eol, fn)
+            check_case(res, desc['fmt'], desc['variants'], eol, fn, gz, lazy, [])
+            continue
         if desc['tier'] == 'thorough' and len(desc['variants']) >= 4 and (ci // 4 + ci) % 4 != 0:
             continue      # 4-record files: a fixed quarter of the configurations (each of plain/gzip x lazy/eager occurs)
         if deadline.expired():
@@ -297,6 +343,8 @@ def replay_case(case):
                  'expected': g['exemplars'][0]['expected'], 'traceback': g['exemplars'][0]['traceback']}
                 for g in full.fail_groups.values()]
     scheds = [tuple(case['sched'])]
+    if case['sched'][0] == 'joined':
+        scheds = []
     if case['sched'] == ['all']:
         f, recs, data = build(case['fmt'], case['variants'], case['eol'], case['final_newline'])
         scheds = [('const', k) for k in range(1, len(data) + 3)]
@@ -307,6 +355,10 @@ def replay_case(case):
 
 
 def repro_py(case):
+    if case['sched'][0] == 'joined':
+        return ('# np.concatenate(list(reader.read_chunks(%d))) of format %s (variants %r, %s, final newline %s, gz %s, lazy %s): '
+                'replay with bin/vcheck replay <this file>\n' % (case['sched'][1], case['fmt'], case['variants'], case['eol'],
+                                                                 case['final_newline'], case['gz'], case['lazy']))
     f = FORMATS[case['fmt']]
     mod, cls = f.buffer.split(':')
     return '''import io, base64, gzip, numpy as np
